@@ -395,7 +395,7 @@ EXTRA_PROP_FILES = ['Bridge', 'Bridge2']
 
 # T-field translator (lib/xlate_field.py): coq/Gen/GenField.v is regenerated from the working tree's source text before
 # the Coq build; Props/Gen.v (generated formulas = the models the theorems are about + corollaries) is a strict obligation
-STRICT_PROP_FILES = ['Gen']
+STRICT_PROP_FILES = ['Gen', 'Gen3']
 
 
 def _gen_regen(ctx):
@@ -407,4 +407,14 @@ def _gen_regen(ctx):
 
 def pre(ctx):
     _gen_regen(ctx)
+    _gen3_regen(ctx)
+
+# T-field translator, table 3 (lib/xlate_field.py --table3): per-curve hook overrides (Fp2/Fp3/Fp6 non-residue hooks,
+# mul_by_a), tower helpers (norm, cyclotomic inverse, mul_by_fp*, Frobenius coefficient hooks), SubAssign / cofactor code,
+# point serialisation; Props/Gen3.v is a strict obligation
+def _gen3_regen(ctx):
+    import importlib.util, os
+    sp = importlib.util.spec_from_file_location('gen_pre3', os.path.join(ctx['ROOT'], 'props', 'Gen', 'pre3.py'))
+    m = importlib.util.module_from_spec(sp); sp.loader.exec_module(m)
+    m.regen(ctx)
 
